@@ -810,14 +810,20 @@ def generate(unit, template_path, canary=False, extra_fns=()):
                 for h in re.finditer(arm_rx, fmask):
                     # keep only real arm patterns: after the pattern (and its `{...}` if the regex ends in `{`) comes `=>`
                     e = h.end()
-                    if fmask[e - 1] == "{":
-                        e = match_brace(fmask, e - 1) + 1
+                    ob = fmask.find("{", h.start(), h.end())
+                    if ob >= 0:
+                        cb = match_brace(fmask, ob)
+                        if cb >= h.end() - 1:
+                            e = cb + 1      # the regex stops inside the pattern's `{...}`: the pattern ends at its closing brace
                     rest = fmask[e:e + 200].lstrip()
                     if rest.startswith("=>") or rest.startswith("|") or re.match(r"if\b", rest):
                         hits.append(h)
                 if len(hits) != 1:
                     raise AnchorLost(f"{spec['file']}::{spec['name']}: arm pattern `{arm_rx}` matched {len(hits)}x")
                 k = hits[0].end()
+                ob = fmask.find("{", hits[0].start(), hits[0].end())
+                if ob >= 0 and match_brace(fmask, ob) >= k - 1:
+                    k = match_brace(fmask, ob) + 1
                 depth = 0
                 arrow = None
                 while k < len(fmask) - 1:
